@@ -27,5 +27,10 @@ for ID in $IDS; do
 done
 git -C /repo status --porcelain
 git -C /verif checkout -- evidence 2>/dev/null
+# with explicit ids: rows of the other kept changes are carried over from the previous table
+if [ $# -gt 0 ] && [ -f "$OUT" ]; then
+  PAT=$(echo $IDS | sed 's/ /|/g')
+  grep -E '^\| C[0-9]+' "$OUT" | grep -vE "^\| ($PAT) \|" >> "$TMP"
+fi
 { echo "| seeded change | check | exit (1 = VIOLATION reported) | replay exit | seconds | first complaint |"; echo "|---|---|---|---|---|---|"; sort "$TMP"; } > "$OUT"
 rm -f "$TMP" /tmp/sa_$$.log
